@@ -228,7 +228,7 @@ LoopBoxes:
 		if err != nil {
 			return nil, err
 		}
-		boxType, boxSize := box.Type(), box.Size()
+		boxType := box.Type()
 		switch boxType {
 		case "mdat":
 			if f.isFragmented {
@@ -274,7 +274,8 @@ LoopBoxes:
 		}
 		f.AddChild(box, boxStartPos)
 		lastBoxType = boxType
-		boxStartPos += boxSize
+		// Position in the input; box.Size() can differ from the size in the input (64-bit size field)
+		boxStartPos = uint64(sr.GetPos())
 	}
 	return f, nil
 }
